@@ -42,7 +42,9 @@ fn craft_wm_codes(freq: &mut HashMap<usize, u32>, sigma: usize) -> Vec<PrefixCod
     #[cfg(qwt_verif)]
     crate::verif::tie_break(&mut f, |x| (x.1, x.0));
 
-    let mut c = vec![0; alph_size];
+    // a single symbol gets the 1-bit code: the only case in which the code is not complete
+    // and more nodes than symbols are generated
+    let mut c = vec![0; alph_size.max(2)];
     let mut assignments = vec![PrefixCode { content: 0, len: 0 }; sigma + 1];
     let mut m = 1; //how many codes we have so far
     let mut l = 0;
